@@ -108,7 +108,13 @@ class BridgeSys:
         elif a in ("stop", "leave"):
             try:
                 if a == "leave":
-                    await self.bridge.__aexit__(None, None, None)
+                    if step.get("exc"):
+                        err = RuntimeError("body failed") if step["exc"] == "RuntimeError" else OSError("body failed")
+                        swallowed = await self.bridge.__aexit__(type(err), err, None)
+                        if swallowed:
+                            self.fail("context-swallows-body-exception", "falsy __aexit__ result", repr(swallowed))
+                    else:
+                        await self.bridge.__aexit__(None, None, None)
                 else:
                     await self.bridge.stop()
             except Exception as exc:
@@ -260,9 +266,12 @@ def machine_factory(nports):
             def start(self, how):
                 self.do({"action": how})
 
-            @rule(how=st.sampled_from(["stop", "stop", "leave"]))
+            @rule(how=st.sampled_from(["stop", "stop", "leave", "leave-exc-RuntimeError", "leave-exc-OSError"]))
             def stop(self, how):
-                self.do({"action": how})
+                if how.startswith("leave-exc-"):
+                    self.do({"action": "leave", "exc": how[10:]})
+                else:
+                    self.do({"action": how})
 
             @rule(port=st.integers(0, nports - 1))
             def send(self, port):
